@@ -27,13 +27,17 @@ def modelRec (cfg : Cfg) : Go.Rec where
 
 /-! ### misuse depends on `np` only pointwise -/
 
+theorem countKept_congr (np np' : Str → Bool) (h : ∀ p, np' p = np p) : ∀ cs, countKept np' cs = countKept np cs
+  | [] => rfl
+  | c :: cs => by simp [countKept, isNull_congr np np' h c, countKept_congr np np' h cs]
+
 mutual
 theorem misuse_congr (np np' : Str → Bool) (h : ∀ p, np' p = np p) : ∀ c, misuse np' c = misuse np c
   | .nilc => by simp [misuse]
   | .tok _ _ => by simp [misuse]
   | .lit _ => by simp [misuse]
   | .group g items => by
-      simp [misuse, allNull_congr np np' h items, misuseItems_congr np np' h _ items]
+      simp [misuse, allNull_congr np np' h items, misuseItems_congr np np' h _ items, countKept_congr np np' h items]
   | .stmt items => by simp [misuse, misuseList_congr np np' h items]
   | .dict ps => by simp [misuse, misusePairs_congr np np' h ps]
   | .tag _ => by simp [misuse]
@@ -149,13 +153,14 @@ theorem Statement_render_eq (cfg : Cfg) (f : FileS) (hg : Good cfg f) (items : L
 
 /-! ### Group.renderItems -/
 
-/-- loop body of `Group.renderItems`, restated (`big` : the group has more than one item) -/
-def itemStep (cfg : Cfg) (g : GInfo) (big : Bool) (st : FileS × Bool × Str) (c : Code) :
+/-- loop body of `Group.renderItems`, restated (`big` : the group has more than one item that
+    renders something, asked at the state the loop has reached) -/
+def itemStep (cfg : Cfg) (g : GInfo) (big : FileS → Bool) (st : FileS × Bool × Str) (c : Code) :
     Option (FileS × Bool × Str) :=
   let f0 := if Go.isToken c && (Go.tokTyp c == Go.TokTyp.packageToken)
     then ((modelRec cfg).register st.1 (Go.tokContent c)).2 else st.1
   if Go.isNil c || isNull f0.np c then some (f0, st.2.1, st.2.2)
-  else if (g.name == b!"values") && (Go.isDict c && big) then none
+  else if (g.name == b!"values") && (Go.isDict c && big f0) then none
   else
     match (modelRec cfg).render f0
       (if g.multi then (if !st.2.1 && g.sep != ([] : Str) then st.2.2 ++ g.sep else st.2.2) ++ b!"\n"
@@ -169,28 +174,49 @@ def itemFin : Option (FileS × Bool × Str) → Option (Bool × Str × FileS)
 
 theorem Group_renderItems_shape (cfg : Cfg) (f : FileS) (g : GInfo) (items : List Code) (w : Str) :
     Gen.Src.Group_renderItems cfg (modelRec cfg) g items f w =
-      itemFin (Go.foldOpt (itemStep cfg g (decide ((Int.ofNat items.length) > (1 : Int)))) (f, true, w) items) := rfl
+      itemFin (Go.foldOpt (itemStep cfg g
+        (fun f' => decide (Gen.Src.Group_countItems cfg (modelRec cfg).null g items f' > (1 : Int)))) (f, true, w) items) := rfl
 
-theorem item_fold (cfg : Cfg) (g : GInfo) (big : Bool) : ∀ (cs : List Code) (f : FileS) (first : Bool) (w : Str),
-    Good cfg f →
-    itemFin (Go.foldOpt (itemStep cfg g big) (f, first, w) cs) =
+/-- the translated counting loop is the model's `countKept` -/
+theorem countItems_fold (np : Str → Bool) : ∀ (cs : List Code) (n : Int),
+    List.foldl (fun (n : Int) c => if (!(Go.isNil c) && !(isNull np c)) = true then n + 1 else n) n cs =
+      n + (countKept np cs : Int)
+  | [], n => by simp [countKept]
+  | c :: cs, n => by
+      rw [List.foldl, countItems_fold np cs, countKept]
+      have h := isNil_or_isNull np c
+      cases hn : isNull np c <;> cases hl : Go.isNil c <;> simp_all <;> omega
+
+theorem Group_countItems_eq (cfg : Cfg) (g : GInfo) (items : List Code) (f : FileS) :
+    Gen.Src.Group_countItems cfg (modelRec cfg).null g items f = (countKept f.np items : Int) := by
+  have h := countItems_fold f.np items 0
+  simp only [Int.zero_add] at h
+  exact h
+
+theorem countKept_ext {f f' : FileS} (h : Ext f f') (cs : List Code) : countKept f'.np cs = countKept f.np cs :=
+  countKept_congr _ _ h.np cs
+
+theorem item_fold (cfg : Cfg) (g : GInfo) (bigF : FileS → Bool) (big : Bool) : ∀ (cs : List Code) (f : FileS) (first : Bool) (w : Str),
+    Good cfg f → (∀ f', Ext f f' → bigF f' = big) →
+    itemFin (Go.foldOpt (itemStep cfg g bigF) (f, first, w) cs) =
       if misuseItems f.np (g.name == b!"values" && big) cs then none
       else some ((renderItemsS cfg g first f cs).2.1, w ++ (renderItemsS cfg g first f cs).1,
         (renderItemsS cfg g first f cs).2.2)
-  | [], f, first, w, _ => by
+  | [], f, first, w, _, _ => by
       simp [Go.foldOpt, itemFin, misuseItems, renderItemsS]
-  | c :: cs, f, first, w, hg => by
+  | c :: cs, f, first, w, hg, hb => by
       have he0 := preReg_ext cfg f hg c
       have hg0 := good_of_ext hg he0
+      have hb0 : ∀ f', Ext (preReg cfg f c) f' → bigF f' = big := fun f' h' => hb f' (he0.trans h')
       rw [Go.foldOpt, renderItemsS_cons, misuseItems]
       simp only [itemStep, isNil_or_isNull]
       have hreg : (modelRec cfg).register = Registry.register cfg := rfl
       rw [hreg, preReg_eq, ← isNull_ext he0 c]
       by_cases hn : isNull (preReg cfg f c).np c = true
       · simp only [hn, if_true]
-        rw [item_fold cfg g big cs _ first w hg0, misuseItems_ext he0]
+        rw [item_fold cfg g bigF big cs _ first w hg0 hb0, misuseItems_ext he0]
       · have hn' : isNull (preReg cfg f c).np c = false := by simpa using hn
-        simp only [hn', Bool.false_eq_true, if_false, goIsDict_eq]
+        simp only [hn', Bool.false_eq_true, if_false, goIsDict_eq, hb0 _ (Ext.refl _)]
         by_cases hd : (g.name == b!"values" && (Code.isDict c && big)) = true
         · have hd' : ((g.name == b!"values" && big) && Code.isDict c) = true := by
             revert hd; cases (g.name == b!"values") <;> cases big <;> cases Code.isDict c <;> simp
@@ -205,7 +231,7 @@ theorem item_fold (cfg : Cfg) (g : GInfo) (big : Bool) : ∀ (cs : List Code) (f
           · have hm' : misuse (preReg cfg f c).np c = false := by simpa using hm
             have he := renderS_ext cfg _ hg0 none c hn'
             simp only [hm', Bool.false_eq_true, if_false, Bool.false_or]
-            rw [item_fold cfg g big cs _ false _ (good_of_ext hg0 he), misuseItems_ext he, misuseItems_ext he0]
+            rw [item_fold cfg g bigF big cs _ false _ (good_of_ext hg0 he) (fun f' h' => hb0 f' (he.trans h')), misuseItems_ext he, misuseItems_ext he0]
             by_cases hmi : misuseItems f.np (g.name == b!"values" && big) cs = true
             · simp [hmi]
             · simp only [hmi, itemLead]
@@ -217,12 +243,20 @@ theorem decide_len (n : Nat) : decide ((Int.ofNat n) > (1 : Int)) = decide (n > 
     omega
   exact decide_eq_decide.mpr this
 
+theorem decide_cnt (n : Nat) : decide (((n : Nat) : Int) > (1 : Int)) = decide (n > 1) := by
+  have : (((n : Nat) : Int) > (1 : Int)) ↔ n > 1 := by
+    show (1 : Int) < (n : Int) ↔ 1 < n
+    omega
+  exact decide_eq_decide.mpr this
+
 theorem Group_renderItems_eq (cfg : Cfg) (f : FileS) (hg : Good cfg f) (g : GInfo) (items : List Code) (w : Str) :
     Gen.Src.Group_renderItems cfg (modelRec cfg) g items f w =
-      if Code.misuseItems f.np (g.name == b!"values" && decide (items.length > 1)) items then none
+      if Code.misuseItems f.np (g.name == b!"values" && decide (countKept f.np items > 1)) items then none
       else some ((Code.renderItemsS cfg g true f items).2.1, w ++ (Code.renderItemsS cfg g true f items).1,
         (Code.renderItemsS cfg g true f items).2.2) := by
-  rw [Group_renderItems_shape, item_fold cfg g _ items f true w hg, decide_len]
+  rw [Group_renderItems_shape, item_fold cfg g _ (decide (countKept f.np items > 1)) items f true w hg]
+  intro f' he
+  rw [Group_countItems_eq, decide_cnt, countKept_ext he]
 
 /-! ### Group.render -/
 
@@ -256,7 +290,7 @@ theorem Group_render_eq (cfg : Cfg) (f : FileS) (hg : Good cfg f) (g : GInfo) (i
   by_cases ht : (g.name == b!"types" && allNull f.np items) = true
   · simp only [ht, if_true, Bool.false_eq_true, if_false, List.append_nil]
   · simp only [ht, if_false, Bool.false_eq_true]
-    by_cases hm : misuseItems f.np (g.name == b!"values" && decide (items.length > 1)) items = true
+    by_cases hm : misuseItems f.np (g.name == b!"values" && decide (countKept f.np items > 1)) items = true
     · simp only [hm, if_true]
     · simp only [hm, if_false, Bool.false_eq_true, List.append_assoc]
 
@@ -266,6 +300,7 @@ example : ∃ cfg f, Good cfg f :=
 
 #print axioms Statement_render_eq
 #print axioms Group_renderItems_eq
+#print axioms Group_countItems_eq
 #print axioms Group_render_eq
 
 end Tie
